@@ -745,16 +745,37 @@ class DbModel:
             if v is not None and first_v is None:
                 v["op"] = "load of %r after the history (memo as left by the history)" % (p,)
                 first_v = v
-        # B: as a new process would see the directory
+        # A2: from_db for EVERY basis of the menu, twice over, so that every ordered pair of bases
+        #     (B1 asked before B2, B1 = B2 included) occurs after every history - whatever from_db
+        #     keeps between calls shows here; then every single automaton once more.
+        def ask_bases(tag):
+            nonlocal first_v
+            for bi, basis in enumerate(self.bases):
+                bad = any(is_bad(q) for q in basis)
+                val, exc, _ = _call(PinWords.make_dfa_for_basis_from_db, [Perm(q) for q in basis])
+                v, oc = _judge_dfa(val, exc, basis, bad)
+                outcomes.add(tag + ":" + oc)
+                if v is not None and first_v is None:
+                    v["op"] = "from_db of basis %r %s (bases are asked in menu order)" % (basis, tag)
+                    first_v = v
+
+        def ask_loads(tag):
+            nonlocal first_v
+            for p in self.pool:
+                val, exc, _ = _call(PinWords.load_dfa_for_perm, Perm(p))
+                v, oc = _judge_dfa(val, exc, [p], is_bad(p))
+                outcomes.add(tag + ":" + oc)
+                if v is not None and first_v is None:
+                    v["op"] = "load of %r %s" % (p, tag)
+                    first_v = v
+
+        ask_bases("after, first pass over the bases")
+        ask_bases("after, second pass over the bases")
+        ask_loads("after the two passes over the bases")
+        # B: as a new process would see the directory (bases first: from_db does the loading)
         _reset()
-        for p in self.pool:
-            bad = is_bad(p)
-            val, exc, _ = _call(PinWords.load_dfa_for_perm, Perm(p))
-            v, oc = _judge_dfa(val, exc, [p], bad)
-            outcomes.add("reopened:" + oc)
-            if v is not None and first_v is None:
-                v["op"] = "load of %r after the history with the in-memory cache cleared" % (p,)
-                first_v = v
+        ask_bases("after the history with the in-memory state cleared")
+        ask_loads("after the history with the in-memory state cleared")
         if first_v is not None:
             viols.append(first_v)
         nfiles = sum(1 for p in self.pool if _dbpath(p) in present)
@@ -1287,14 +1308,20 @@ def _bisc_initials():
             (("w", "setB", 2, 0), ("d", "setB", "bad", 2))]
 
 
+def _subsets(pool, maxsize):
+    return [[list(p) for p in c] for r in range(1, maxsize + 1) for c in itertools.combinations(pool, r)]
+
+
 def _db_params(quick, bare=False):
+    """bases = a complete family of subsets of the pool (so: the empty permutation alone and with
+    others, bases sharing a sorted prefix, bases of mixed lengths)."""
     if quick:
-        prm = {"pool": [(), (0,), (0, 1), (1, 0)], "creates": [0, 1, 2],
-               "bases": [[(0, 1), (1, 0)], [(0,), (1, 0)]]}
+        pool = [(), (0,), (0, 1), (1, 0)]
+        prm = {"pool": pool, "creates": [0, 1, 2], "bases": _subsets(pool, 4)}      # all 15
         top = 2
     else:
-        prm = {"pool": [(), (0,), (0, 1), (1, 0), (0, 2, 1), (1, 2, 0)], "creates": [1, 2, 3],
-               "bases": [[(0, 1), (1, 0)], [(0,), (1, 0)], [(1, 2, 0), (0, 2, 1)], [(1, 0), (0, 2, 1)]]}
+        pool = [(), (0,), (0, 1), (1, 0), (0, 2, 1), (1, 2, 0)]
+        prm = {"pool": pool, "creates": [1, 2, 3], "bases": _subsets(pool, 2)}      # 6 + 15
         top = 3
     # start directory: bare (no dfa_db at all) or an existing, empty database skeleton
     prm["skeleton"] = [] if bare else ["dfa_db"] + ["dfa_db/S%d" % n for n in range(top + 1)]
